@@ -298,6 +298,16 @@ pub fn random_mutation(f: &Frame, rng: &mut Rng, world: bool) -> Mutation {
             let cs = f.comp_start.unwrap();
             let mut wire = f.wire_body();
             let zlen = wire.len() - cs;
+            if rng.chance(1, 40) && cs >= 4 {
+                // decompression bomb: a ~1.2 MB stream that expands to 1.25 GiB while the size field announces little
+                wire.truncate(cs);
+                let announced: u32 = *rng.pick(&[16u32, 0x1000, 0x7F_FFFF]);
+                wire[cs - 4..cs].copy_from_slice(&announced.to_le_bytes());
+                wire.extend_from_slice(zlib_bomb());
+                let mut m = Mutation::base(f, "T4", format!("zlib bomb (1.25 GiB of zeros) behind a decompressed_size of {}", announced));
+                m.wire_body = Some(wire);
+                return m;
+            }
             let what = rng.below(5);
             let desc;
             match what {
@@ -408,6 +418,64 @@ pub fn random_mutation(f: &Frame, rng: &mut Rng, world: bool) -> Mutation {
             m
         }
     }
+}
+
+/// T4, enumerated: one mutation per kind of compressed-payload corruption
+pub fn compressed_mutations(f: &Frame) -> Vec<Mutation> {
+    let Some(cs) = f.comp_start else { return Vec::new() };
+    if cs < 4 {
+        return Vec::new();
+    }
+    let wire = f.wire_body();
+    let zlen = wire.len() - cs;
+    let mut out = Vec::new();
+    let mut mk = |desc: String, w: Vec<u8>| {
+        let mut m = Mutation::base(f, "T4", desc);
+        m.wire_body = Some(w);
+        out.push(m);
+    };
+    if zlen > 2 {
+        for p in [cs, cs + 1, cs + zlen / 2, cs + zlen - 1] {
+            let mut w = wire.clone();
+            w[p] ^= 0x10;
+            mk(format!("zlib byte {} flipped", p - cs), w);
+        }
+        for keep in [1usize, zlen / 2, zlen - 1] {
+            let mut w = wire.clone();
+            w.truncate(cs + keep);
+            mk(format!("zlib stream truncated to {} bytes", keep), w);
+        }
+    }
+    let mut w = wire.clone();
+    w.truncate(cs);
+    mk("zlib stream removed".into(), w.clone());
+    let mut g = w.clone();
+    g.extend_from_slice(&zlib(&[0xAB; 40]));
+    mk("valid zlib of 40 garbage bytes".into(), g);
+    let mut g = w.clone();
+    g.extend_from_slice(&[0x78, 0x9c, 0xff, 0xff, 0x00, 0x01, 0x02]);
+    mk("broken deflate block".into(), g);
+    for announced in [16u32, 0x7F_FFFF] {
+        let mut b = w.clone();
+        b[cs - 4..cs].copy_from_slice(&announced.to_le_bytes());
+        b.extend_from_slice(zlib_bomb());
+        mk(format!("zlib bomb (1.25 GiB of zeros) behind a decompressed_size of {}", announced), b);
+    }
+    out
+}
+
+/// a zlib stream of 1.25 GiB of zeros, built once per process
+pub fn zlib_bomb() -> &'static [u8] {
+    use std::io::Write;
+    static BOMB: std::sync::OnceLock<Vec<u8>> = std::sync::OnceLock::new();
+    BOMB.get_or_init(|| {
+        let mut e = flate2::write::ZlibEncoder::new(Vec::new(), flate2::Compression::fast());
+        let chunk = vec![0u8; 1 << 20];
+        for _ in 0..1280 {
+            e.write_all(&chunk).unwrap();
+        }
+        e.finish().unwrap()
+    })
 }
 
 /// final world stream for a mutation
